@@ -59,11 +59,30 @@ def has_line(self):
     return self._current_line_number is not None
 
 
+def line_fields_coherent(self):
+    """(conjuncts of RI) the text of the current line is there exactly when its number is, the column is
+    inside it, and it does not contain a newline"""
+    if self._current_line_number is None:
+        return self._current_line_text is None
+    return self._current_line_text is not None \
+        and 0 <= self._column_index and self._column_index <= len(self._current_line_text) \
+        and NL not in self._current_line_text
+
+
 P_DP = 'exactly_lib.section_document.impl.document_parser'
 
 
 ALSO_ABSTRACT = ('exactly_lib.section_document.element_parsers.optional_description_and_instruction_parser:'
-                 'InstructionWithOptionalDescriptionParser.parse',)
+                 'InstructionWithOptionalDescriptionParser.parse',
+                 # (D7) only calls ParseSource methods and the line-syntax predicates: verified through their contracts
+                 'exactly_lib.section_document.element_parsers.optional_description_and_instruction_parser:'
+                 'InstructionWithOptionalDescriptionParser._consume_space_and_comment_lines',
+                 # (D7) reads the source through two observers (used through their contracts there) and lets the
+                 # opaque instruction parser run
+                 'exactly_lib.section_document.element_parsers.section_element_parsers:parse_and_compute_source',
+                 # (D7, contracts/C07c_parsers.py) reads lines through the observers and consume_current_line
+                 'exactly_lib.processing.parse.act_phase_source_parser:ActPhaseParser.parse',
+                 'exactly_lib.processing.parse.file_inclusion_directive_parser:FileInclusionDirectiveParser.parse',)
 
 
 def at_document_level(interp):
@@ -204,14 +223,21 @@ M.contract(P_PS + ':ParseSource.is_at_eof', params=dict(self=PARSE_SOURCE), ghos
 M.contract(P_PS + ':ParseSource.has_current_line', params=dict(self=PARSE_SOURCE), inline=True,
            ensures={'def': lambda self, result: iff(result, has_line(self))}, raises_only=())
 
+# (D7) parse_and_compute_source is verified at the document level (RI uninterpreted): there the two observers it
+# reads are used through their contracts, everywhere else they are inlined as before
+_P_PACS = 'exactly_lib.section_document.element_parsers.section_element_parsers:parse_and_compute_source'
+NOT_IN_PARSE_AND_COMPUTE_SOURCE = lambda fn_name: fn_name != _P_PACS
+
 M.contract(P_PS + ':ParseSource.remaining_source', params=dict(self=PARSE_SOURCE), ghosts=dict(orig=Str),
-           inline=True,
+           inline=NOT_IN_PARSE_AND_COMPUTE_SOURCE, returns=Str,
            requires=lambda self, orig: RI(self, orig),
-           ensures={'is-the-unconsumed-suffix': lambda self, orig, result: result == orig[off_of(self, orig):]},
+           ensures={'the-offset-is-inside-the-text': lambda self, orig:
+                    0 <= off_of(self, orig) and off_of(self, orig) <= len(orig),
+                    'is-the-unconsumed-suffix': lambda self, orig, result: result == orig[off_of(self, orig):]},
            raises_only=())
 
 M.contract(P_PS + ':ParseSource.current_line_number', params=dict(self=PARSE_SOURCE), ghosts=dict(orig=Str),
-           inline=True,
+           inline=NOT_IN_PARSE_AND_COMPUTE_SOURCE, returns=Int,
            requires=lambda self, orig: RI(self, orig) and has_line(self),
            ensures={
                'one-plus-newlines-before-the-current-position': lambda self, orig, result:
@@ -295,6 +321,8 @@ M.contract(P_PS + ':ParseSource.consume_current_line', inline=NOT_IN_DOCUMENT_PA
                (self._current_line_number == old[0][2] + 1) if has_line(self) else off_of(self, orig) == len(orig),
                'not-moved-back-and-at-a-line-start': lambda self, orig, old:
                off_of(self, orig) >= old[1] and ((not has_line(self)) or self._column_index == 0),
+               # (D7: a fact of RI that the document level, where RI is uninterpreted, needs by itself)
+               'a-current-line-has-a-text': lambda self: line_fields_coherent(self),
                'the-line-before-the-new-position-is-the-line-consumed': lambda self, orig, old:
                _line_start_at(orig, old[2]) and last_consumed_line(orig, self) == old[0][3],
            }, raises_only=())
@@ -491,12 +519,13 @@ def _parsed_instruction_for_callers(interp, name, bound):
                                  InstructionInfo(instruction, bound['description']))
 
 
-# Proved (7 clauses) on the string engine of branch wC before the merge with main (commit b3ec767), where
-# s.split(ch) was a mutable list tied to the join measure and `del xs[-1]` kept it.  The merged engine has main's
-# weak model of str.split (a sequence of unknown strings): the proof is switched off, the contract is ASSUMED
-# (trusted: listed as such in the evidence) where InstructionWithOptionalDescriptionParser.parse uses it, and the
-# function is covered by the bounded stand-in `parse_and_compute_source on all small texts`.
-_PARSE_AND_COMPUTE_SOURCE_PROOF = False
+# History: proved on the string engine of branch wC, switched off after the merge with main (main's str.split was a
+# sequence of unknown strings), contract ASSUMED meanwhile.  Extension D7: proved again and the flag is on --
+# (1) with string alignment on, s.split(ch) is a mutable list tied to the join measure and `del xs[-1]` carries the
+# measure over (pyvc.mlist.split_all / _joins_without_last); (2) the function is verified at the DOCUMENT level (RI
+# uninterpreted, the opaque parser's step abstract, `remaining_source` / `current_line_number` through their
+# contracts): 4 paths instead of 60.  The bounded stand-in stays as a labelled cross-check.
+_PARSE_AND_COMPUTE_SOURCE_PROOF = True
 if not _PARSE_AND_COMPUTE_SOURCE_PROOF:
     M.trust('section_element_parsers.parse_and_compute_source: contract assumed (proof switched off on the merged '
             'engine, see _PARSE_AND_COMPUTE_SOURCE_PROOF); bounded stand-in: all texts of <= 6 characters over '
@@ -536,7 +565,36 @@ def _parse_and_compute_source_on_small_texts(ctx):
 
 # ---- lemma: the state of a ParseSource is a function of (orig, off, has-current-line)
 
-def lemma_state_is_a_function_of_the_offset(s1, s2):
+def lemma_no_newline_inside_the_current_line(s, orig, j):
+    """(D7) offset j of orig lies inside the current line of s: the character there is not a newline.  (The step
+    of the lemma below that the solvers did not find by themselves, as a lemma of its own.)"""
+    k = len(orig) - len(s.source_string)
+    inside = s._current_line_text[j - k:j - k + 1]
+    return inside != NL and orig[j:j + 1] == inside
+
+
+M.contract('contracts.C07_document:lemma_no_newline_inside_the_current_line',
+           params=dict(s=PARSE_SOURCE, orig=Str, j=Int),
+           requires=lambda s, orig, j: RI(s, orig) and has_line(s)
+           and ls_of(s, orig) <= j and j < ls_of(s, orig) + len(s._current_line_text),
+           returns=Bool,
+           ensures={'the-character-is-one-of-the-current-line': lambda result: result,
+                    # (stated through `result`: where the lemma is used to refute a case the clause is then not
+                    # literally False at the call site, which the engine refuses, but contradicts `result`)
+                    'no-newline-inside-the-current-line': lambda result, orig, j: iff(result, orig[j:j + 1] != NL)},
+           raises_only=())
+
+
+def lemma_state_is_a_function_of_the_offset(s1, s2, orig):
+    """(D7: proof steps made explicit) two states at the same offset are on the same line -- otherwise the line
+    start of the one that starts later would be a newline inside the current line of the other"""
+    if has_line(s1) and has_line(s2):
+        k1 = len(orig) - len(s1.source_string)
+        k2 = len(orig) - len(s2.source_string)
+        if k1 < k2:
+            lemma_no_newline_inside_the_current_line(s1, orig, k2 - 1)
+        if k2 < k1:
+            lemma_no_newline_inside_the_current_line(s2, orig, k1 - 1)
     return unchanged(s1, snap(s2))
 
 
@@ -552,15 +610,15 @@ def _line_start_again(s, orig):
     return True
 
 
-# Proved (1 clause, 1 s) on the string engine of branch wC before the merge with main (commit b3ec767).  On the
-# merged engine the clause is beyond the solvers (the two states cut `orig` at the same offsets, but the case
-# split that aligns the two sets of pieces is the merged engine's, and the word equations stay): the proof is
-# switched off, and what the lemma is used for -- the operational model of opaque parsers reaches every state a
-# sequence of public mutator calls can reach -- is covered by the bounded stand-in `states of a ParseSource`.
-_STATE_LEMMA_PROOF = False
+# History: proved on the string engine of branch wC, beyond the solvers after the merge with main.  Extension D7:
+# proved again (flag on) with the missing step as a lemma of its own (`lemma_no_newline_inside_the_current_line`:
+# two states at the same offset are on the same line, otherwise the later line start would be a newline inside the
+# current line of the other).  The bounded stand-in `states of a ParseSource` stays as a labelled cross-check (it
+# also checks what the lemma is used for).
+_STATE_LEMMA_PROOF = True
 if _STATE_LEMMA_PROOF:
     M.contract('contracts.C07_document:lemma_state_is_a_function_of_the_offset',
-               params=dict(s1=PARSE_SOURCE, s2=PARSE_SOURCE), ghosts=dict(orig=Str),
+               params=dict(s1=PARSE_SOURCE, s2=PARSE_SOURCE, orig=Str),
                requires=lambda s1, s2, orig: RI(s1, orig) and RI(s2, orig) and off_of(s1, orig) == off_of(s2, orig)
                and iff(has_line(s1), has_line(s2)) and _line_start_again(s1, orig) and _line_start_again(s2, orig),
                ensures={'same-offset-same-state': lambda result: result},
@@ -1847,18 +1905,20 @@ M.contract(P_ODI + ':_DescriptionExtractor.apply', event='extract-description',
            raises={RecognizedSectionElementSourceError: {'ensures': lambda self, orig, old:
                    RI(self.source, orig) and off_of(self.source, orig) >= old}},
            ensures={'source-well-formed-moved-forward-with-a-current-line': lambda self, orig, old:
-                    RI(self.source, orig) and off_of(self.source, orig) >= old and has_line(self.source)},
+                    RI(self.source, orig) and off_of(self.source, orig) >= old and has_line(self.source),
+                    'the-current-line-has-a-text': lambda self: line_fields_coherent(self.source)},
            raises_only=())
 
 P_ODI_P = P_ODI + ':InstructionWithOptionalDescriptionParser'
 LINE = Inst(Line, _tuple=[Int, Str])
 
-# Proved (8 clauses, 12 s) on the string engine of branch wC before the merge with main (commit b3ec767).  On the
-# merged engine `loop#0 invariant[preserved]` is beyond the solvers and the exploration takes minutes: the proof is
-# switched off, the contract is ASSUMED (trusted) where InstructionWithOptionalDescriptionParser.parse uses it, and
-# the function is covered by the bounded stand-in `_consume_space_and_comment_lines on all small texts` (and, end to
-# end, by the stand-in for the assembled parser: description / comment / blank lines in front of instructions).
-_CONSUME_SPACE_AND_COMMENT_LINES_PROOF = False
+# History: proved on the string engine of branch wC; after the merge with main `loop#0 invariant[preserved]` timed
+# out and the contract was ASSUMED.  Extension D7: proved again (flag on) at the DOCUMENT level -- the function only
+# calls ParseSource methods and the line-syntax predicates, so RI stays uninterpreted and consume_current_line /
+# consume_initial_space_on_current_line are used through their contracts (8 paths, 2 s); the facts of RI that the code
+# needs by themselves (a current line has a text, the column is inside it) are the predicate `line_fields_coherent`,
+# a postcondition of consume_current_line and of _DescriptionExtractor.apply.  Bounded stand-in kept as cross-check.
+_CONSUME_SPACE_AND_COMMENT_LINES_PROOF = True
 if not _CONSUME_SPACE_AND_COMMENT_LINES_PROOF:
     M.trust('InstructionWithOptionalDescriptionParser._consume_space_and_comment_lines: contract assumed (proof '
             'switched off on the merged engine, see _CONSUME_SPACE_AND_COMMENT_LINES_PROOF); bounded stand-in: all '
@@ -1873,17 +1933,27 @@ def _consume_space_and_comment_lines_on_small_texts(ctx):
 
 M.contract(P_ODI_P + '._consume_space_and_comment_lines', trusted=not _CONSUME_SPACE_AND_COMMENT_LINES_PROOF,
            params=dict(source=PARSE_SOURCE, first_line=LINE), ghosts=dict(orig=Str),
-           requires=lambda source, orig: RI(source, orig) and has_line(source),
-           old=lambda source, orig: off_of(source, orig),
+           requires=lambda source, orig: RI(source, orig) and has_line(source) and line_fields_coherent(source),
+           old=lambda source, orig: (off_of(source, orig), source._current_line_number),
            modifies=frame(source=PS_FRAME),
            raises={UNRECOGNIZED: {'ensures': lambda source, orig, old:
-                   RI(source, orig) and off_of(source, orig) >= old}},
+                   RI(source, orig) and off_of(source, orig) >= old[0]}},
            ensures={'source-well-formed-moved-forward-with-a-current-line': lambda source, orig, old:
-                    RI(source, orig) and off_of(source, orig) >= old and has_line(source)},
+                    RI(source, orig) and off_of(source, orig) >= old[0] and has_line(source),
+                    'the-current-line-has-a-text': lambda source: line_fields_coherent(source),
+                    # (D7) "comments and blank lines between elements are ignored": it stops on the line it was on
+                    # (something is left on it) or on a line that is neither blank nor a comment, after its space
+                    'stops-on-the-first-line-or-on-a-line-that-is-neither-blank-nor-comment': lambda source, old:
+                    source._current_line_number == old[1]
+                    or not (is_blank(source._current_line_text) or is_comment(source._current_line_text)),
+                    'initial-space-of-that-line-is-skipped': lambda source:
+                    source._column_index == len(source._current_line_text)
+                    or not source._current_line_text[source._column_index].isspace()},
            raises_only=())
 if _CONSUME_SPACE_AND_COMMENT_LINES_PROOF:
     M.loop(P_ODI_P + '._consume_space_and_comment_lines', 0,
-           invariant=lambda source, orig, old: RI(source, orig) and off_of(source, orig) >= old,
+           invariant=lambda source, orig, old: RI(source, orig) and off_of(source, orig) >= old[0]
+           and line_fields_coherent(source),
            modifies={'source._column_index': Int, 'source.source_string': Str,
                      'source._current_line_number': Opt(Int), 'source._current_line_text': Opt(Str),
                      'line_in_error_message': LINE})
